@@ -139,8 +139,69 @@ impl ConnCfg {
     }
 }
 
+thread_local! {
+    static ENV: std::cell::Cell<u64> = std::cell::Cell::new(0);
+}
+
+pub const N_AMBIENT: u64 = 6;
+
+/// Run `f` with ambient environment variant `k` (see `apply_ambient`): every `run_conn` inside
+/// it talks to another kind of client over another kind of transport. Families whose own
+/// alphabet is something else (values, programs, histories) rotate this with the scenario index.
+pub fn with_env<T>(k: u64, f: impl FnOnce() -> T) -> T {
+    struct Reset(u64);
+    impl Drop for Reset {
+        fn drop(&mut self) {
+            ENV.with(|e| e.set(self.0));
+        }
+    }
+    let _r = Reset(ENV.with(|e| e.replace(k % N_AMBIENT)));
+    f()
+}
+
+pub fn ambient_name(k: u64) -> &'static str {
+    match k % N_AMBIENT {
+        0 => "usual 4.1 handshake, whole reads and writes",
+        1 => "pre-4.1 handshake layout",
+        2 => "handshake with CLIENT_PROTOCOL_41 only; every transport write accepts 1 byte",
+        3 => "libmysqlclient-style handshake (db, plugin, attributes); transport writes accept 7 bytes",
+        4 => "reads of at most 61 bytes; transport writes accept 4096 bytes",
+        _ => "reads of at most 3 bytes; transport writes accept 1000 bytes",
+    }
+}
+
+/// Changes only what a conformant server must not care about, and only where the scenario did
+/// not decide it itself (no cut positions, gates or faults; default read/write limits).
+fn apply_ambient(st: &mut SimState) {
+    let k = ENV.with(|e| e.get());
+    if k == 0 || !st.cuts.is_empty() || !st.gates.is_empty() || st.fault.is_some() {
+        return;
+    }
+    let def = crate::refwire::default_handshake();
+    if (1..=3).contains(&k) && st.input.starts_with(&def) {
+        let mut v = crate::refwire::handshake_variant(k).0;
+        v.extend_from_slice(&st.input[def.len()..]);
+        st.input = Arc::new(v);
+    }
+    let small_input = st.input.len() < (1 << 20);
+    let (r, w) = match k {
+        2 => (usize::MAX, 1),
+        3 => (usize::MAX, 7),
+        4 => (61, 4096),
+        5 => (3, 1000),
+        _ => (usize::MAX, usize::MAX),
+    };
+    if st.uniform_read == usize::MAX && small_input {
+        st.uniform_read = r;
+    }
+    if st.write_cap == usize::MAX {
+        st.write_cap = w;
+    }
+}
+
 /// One complete execution of the real `run_on` over the simulated transport.
-pub fn run_conn(st: SimState, cfg: ConnCfg) -> Outcome {
+pub fn run_conn(mut st: SimState, cfg: ConnCfg) -> Outcome {
+    apply_ambient(&mut st);
     let sim = Sim::new(st);
     let mut shim = Shim::new(Some(sim.clone()), cfg.behave);
     shim.auth_reject = cfg.auth_reject;
@@ -232,6 +293,28 @@ pub trait Family: Sync + Send {
     fn max_threads(&self) -> Option<usize> {
         None
     }
+    /// ambient environment variant for scenario `idx` (0 = none); see `with_env`
+    fn ambient(&self, _idx: u64) -> u64 {
+        0
+    }
+}
+
+/// spreads the ambient variants over a mixed-radix index without following any one digit
+pub fn rot(idx: u64) -> u64 {
+    (idx ^ (idx >> 3) ^ (idx >> 7) ^ (idx >> 13)) % N_AMBIENT
+}
+
+fn run_one(fam: &dyn Family, idx: u64, st: &mut Stats) -> Result<(), Violation> {
+    let k = fam.ambient(idx);
+    if k != 0 {
+        st.bump("runs_under_another_ambient_environment");
+    }
+    with_env(k, || fam.run(idx, st)).map_err(|mut v| {
+        if k != 0 {
+            v.msg = format!("[{}] {}", ambient_name(k), v.msg);
+        }
+        v
+    })
 }
 
 pub struct Check {
@@ -313,7 +396,7 @@ pub fn drive(check: Check, tier: &str, seed: i64) -> i32 {
                     || (Stats::default(), Vec::<Found>::new()),
                     |(mut st, mut fv), idx| {
                         st.evals += 1;
-                        let r = guarded(|| fam.run(idx, &mut st));
+                        let r = guarded(|| run_one(fam.as_ref(), idx, &mut st));
                         match r {
                             Ok(Ok(())) => {}
                             Ok(Err(v)) => {
@@ -398,7 +481,7 @@ pub fn drive(check: Check, tier: &str, seed: i64) -> i32 {
         // determinism gate: the same scenario must fail the same way twice more
         for _ in 0..2 {
             let mut st = Stats::default();
-            let again = guarded(|| check.families[f.fam].run(f.idx, &mut st));
+            let again = guarded(|| run_one(check.families[f.fam].as_ref(), f.idx, &mut st));
             let same = match &again {
                 Ok(Err(v)) => v.key == f.v.key && v.msg == f.v.msg,
                 _ => false,
@@ -457,6 +540,19 @@ pub fn drive(check: Check, tier: &str, seed: i64) -> i32 {
         }
     }
     total.evals -= total.skipped.min(total.evals);
+    // say in the evidence which families rotate the ambient environment
+    let amb: Vec<String> = check.families.iter().filter(|f| (0..f.len().min(64)).any(|i| f.ambient(i) != 0)).map(|f| f.name()).collect();
+    let rule = if amb.is_empty() {
+        check.rule.clone()
+    } else {
+        format!(
+            "{} Ambient environment: the scenarios of the families {:?} rotate (by scenario index) through {} client/transport variants that a conformant server must not care about: {}.",
+            check.rule,
+            amb,
+            N_AMBIENT,
+            (0..N_AMBIENT).map(ambient_name).collect::<Vec<_>>().join("; ")
+        )
+    };
     let counters: BTreeMap<String, u64> = total.counters.iter().map(|(k, v)| (k.to_string(), *v)).collect();
     let ev = json!({
         "property_id": check.id,
@@ -466,7 +562,7 @@ pub fn drive(check: Check, tier: &str, seed: i64) -> i32 {
         "coverage": {
             "evaluations": total.evals,
             "distinct_nontrivial": total.nontrivial,
-            "rule": check.rule,
+            "rule": rule,
             "samples": samples,
             "states": total.evals,
             "transitions": total.transitions.max(1),
@@ -518,7 +614,7 @@ pub fn replay(check: Check, file: &str) -> i32 {
     println!("replaying {} {}#{}", check.id, famname, idx);
     println!("scenario: {}", serde_json::to_string_pretty(&fam.describe(idx)).unwrap());
     let mut st = Stats::default();
-    match guarded(|| fam.run(idx, &mut st)) {
+    match guarded(|| run_one(fam.as_ref(), idx, &mut st)) {
         Ok(Ok(())) => {
             println!("result: property holds on this scenario");
             0
